@@ -17,7 +17,7 @@ BUDGET = {
     "thorough": {"runs": 100_000, "wall": 1700, "chunk": 60, "minimise": 250},
 }
 REQUIRED_PROBES = {"quick": ("host_active", "host_passive", "late_listener", "cycle_host", "cycle_equipment",
-                             "event_delivered", "segmented_delivery", "api_checked"),
+                             "event_delivered", "segmented_delivery", "api_checked", "thread_stalled"),
                    "thorough": ("host_active", "host_passive", "late_listener", "cycle_host", "cycle_equipment",
                                 "event_delivered", "segmented_delivery", "api_checked", "cycle_mid_call")}
 EVIDENCE = {
@@ -64,6 +64,10 @@ def gen_plan(rng, tier, index):
             "segment": rng.choice([None, None, 1, 3, 13, 100])}
     sched = dict(rng.choice(SCHEDS))
     sched["seed"] = rng.getrandbits(48)
+    if rng.random() < 0.5:
+        # fault: freshly started threads (API callers, connect/accept/receiver threads) are frozen for a while at one of
+        # their first yield points
+        sched["stall"] = {"q": 0.2, "J": 40, "durs": [0.05, 0.5, 3.0], "max": 3}
     plan["sched"] = sched
     return plan
 
@@ -177,13 +181,21 @@ def run(sim, plan):
     rpt = {"n": 1000}
     api_timeout = T3 + 3 + 40 * plan["latency"]
 
+    class Skip(Exception):
+        pass
+
     def api(name, fn):
+        t_call = k.now
         r = call(name, fn, api_timeout + 2 * T3)
         if not r["done"]:
             sim.violation("C20.R4", f"host call {name} did not return within {api_timeout + 2 * T3:.0f} virtual s; history "
                           f"{hist[-5:]}", sig=stuck_sig(f"api-{name}"))
         sim.advance(0.2 + 4 * plan["latency"])
         sim.probe("api_checked")
+        if r["exc"] is not None and k.stalled_within(t_call, k.now) >= 0.4 * T3:
+            # a thread on the call's path was frozen for a good part of T3: the call was cut by a fault (allowed)
+            sim.probe("api_cut_by_stall")
+            raise Skip()
         if r["exc"] is not None:
             sim.violation("C20.R2", f"host call {name} raised {r['exc']!r} on a healthy, communicating link; history "
                           f"{hist[-5:]}", sig=f"C20.R2|{name}-raised-{type(r['exc']).__name__}")
@@ -218,8 +230,8 @@ def run(sim, plan):
         subscribed.clear()   # event reports survive on the equipment, but the host side is re-checked from scratch
         # after a reconnect the equipment control state is whatever E30 prescribes for it; re-sync lazily
 
-    for op, salt in plan["ops"]:
-        hist.append(op)
+    def do_op(op, salt):
+        nonlocal nontrivial
         if not both_communicating():
             expect_communication("before-" + op)
         if op == "are_you_there":
@@ -286,7 +298,7 @@ def run(sim, plan):
         elif op == "subscribe":
             ceid = [50, 20, 21][salt % 3]
             if ceid in subscribed:
-                continue
+                return
             rpt["n"] += 1
             rid = rpt["n"]
             api(op, lambda: host.subscribe_collection_event(ceid, [30, 10], rid))
@@ -307,7 +319,7 @@ def run(sim, plan):
             subscribed.clear()
         elif op == "trigger":
             if not subscribed:
-                continue
+                return
             ceid = sorted(subscribed)[salt % len(subscribed)]
             tokens["n"] += 1
             tok = 7000 + tokens["n"]
@@ -368,6 +380,13 @@ def run(sim, plan):
             cycle(eq, "equipment")
         elif op == "cycle_mid_call":
             cycle([host, eq][salt % 2], ["host", "equipment"][salt % 2], mid_call=True)
+
+    for op, salt in plan["ops"]:
+        hist.append(op)
+        try:
+            do_op(op, salt)
+        except Skip:
+            continue
     # ---- final disable of both sides must return ----------------------------------------------------------------
     d1 = call("final_disable_host", host.disable, 60)
     d2 = call("final_disable_eq", eq.disable, 60)
